@@ -15,6 +15,7 @@
 from .scalar import ConfigScalar
 from .node_path import NodePath
 from ..namespace import namespace, staticproperty
+from .. import errors
 
 
 class XRefNode(ConfigScalar(str)):
@@ -36,6 +37,11 @@ class XRefNode(ConfigScalar(str)):
                 raise ValueError(f'Circular reference detected while following a chain of references: {chain + [str(curr)]}')
             chain.append(str(curr))
             curr = ref
+            if isinstance(curr, XRefNode) and not curr.ayns.safe:
+                # an intermediate reference is followed without being evaluated: it still counts as unsafe content
+                if ctx._require_all_safe:
+                    raise errors.UnsafeError('Note: the current context requires all evaluated nodes to be safe but the chain of references passes through an !unsafe reference', curr, chain[-1])
+                ctx._unsafe_seen += 1
         assert curr is not self
         return ctx.evaluate_node(curr, prefix=chain[-1])
 
